@@ -437,15 +437,27 @@ static void run_queue_enumeration(uint64_t index, bool thorough)
              std::to_string(K) + ": " + std::to_string(runs) + " schedules" + (capped ? " (capped)" : " (complete)"));
 }
 
-static void run_lock_schedule(uint64_t seed)
+// script == nullptr: seeded random / PCT schedule of a seeded configuration; otherwise configuration (n_fixed,
+// ops_fixed) under the scripted bounded-preemption policy
+static QueueRun run_lock_schedule(uint64_t seed, const std::vector<std::pair<uint64_t, int>> *script = nullptr,
+                                  int n_fixed = 0, int ops_fixed = 0)
 {
   auto &R = vf::report();
   Rng r(seed ^ 0x10c);
   int n         = static_cast<int>(r.range(2, 3));
   int ops       = static_cast<int>(r.range(1, 4));
   int policy    = static_cast<int>(r.below(2));
+  if (script)
+  {
+    n      = n_fixed;
+    ops    = ops_fixed;
+    policy = 2;
+  }
+  const std::string mode = script ? "enum" : "serial";
   auto &S       = vfs::sched();
-  S.reset(n, seed, policy, policy ? static_cast<int>(r.range(1, 3)) : 0, 0);
+  S.reset(n, seed, policy, policy == 1 ? static_cast<int>(r.range(1, 3)) : 0, 0);
+  if (script)
+    S.script = *script;
   S.max_steps = 100000;
   SpinLockMutex mu;
   int occupancy = 0;  // only touched by the thread holding the baton
@@ -507,9 +519,21 @@ static void run_lock_schedule(uint64_t seed)
   for (auto &t : th)
     t.join();
   if (both)
-    R.violation("mutual-exclusion", "serial", "two holders inside the critical section; " + desc);
+    R.violation("mutual-exclusion", mode, "two holders inside the critical section; " + desc);
   if (try_while_held)
-    R.violation("try-lock-only-when-free", "serial", "try_lock succeeded while the lock was held; " + desc);
+    R.violation("try-lock-only-when-free", mode, "try_lock succeeded while the lock was held; " + desc);
+  QueueRun qr;
+  qr.steps      = S.steps;
+  qr.infeasible = S.script_infeasible;
+  if (script)
+  {
+    qr.running  = S.trace_running;
+    qr.live     = S.trace_live;
+    S.max_steps = 200000;
+    R.count("enum_lock_runs");
+    R.signature(S.hash ^ 0xe12);
+    return qr;
+  }
   R.count("lock_schedules");
   R.count("lock_acquisitions", acquisitions);
   R.count("lock_try_lock_failures", try_fail);
@@ -518,6 +542,62 @@ static void run_lock_schedule(uint64_t seed)
   R.signature(S.hash ^ 0x10c);
   if (S.switches > 0)
     R.nontrivial(vf::mix(S.hash, seed ^ 0x10c));
+  return qr;
+}
+
+static uint64_t enumerate_lock_rec(uint64_t seed, int n, int ops, std::vector<std::pair<uint64_t, int>> &script,
+                                   uint64_t from_step, int depth, int K, uint64_t &budget, bool &capped)
+{
+  if (budget == 0)
+  {
+    capped = true;
+    return 0;
+  }
+  --budget;
+  QueueRun qr   = run_lock_schedule(seed, &script, n, ops);
+  uint64_t runs = 1;
+  if (qr.infeasible || depth == K)
+    return runs;
+  for (uint64_t s = std::max<uint64_t>(from_step, 1); s < qr.running.size(); ++s)
+  {
+    int me = qr.running[s];
+    if (me < 0)
+      continue;
+    for (int t = 0; t < n; ++t)
+    {
+      if (t == me || !(qr.live[s] & (1u << t)))
+        continue;
+      script.emplace_back(s, t);
+      runs += enumerate_lock_rec(seed, n, ops, script, s + 1, depth + 1, K, budget, capped);
+      script.pop_back();
+      if (capped)
+        return runs;
+    }
+  }
+  return runs;
+}
+
+// the per-thread lock()/try_lock() scripts derive from the seed: a handful of fixed seeds give different mixes
+static void run_lock_enumeration(uint64_t index, bool thorough)
+{
+  auto &R = vf::report();
+  static const uint64_t seeds[] = {11, 12, 13, 14, 15, 16};
+  uint64_t seed = seeds[index % 6];
+  int n         = (index % 6) < 4 ? 2 : 3;
+  int ops       = (index % 6) < 2 ? 1 : 2;
+  int K         = thorough ? 3 : 2;
+  uint64_t budget = thorough ? 300000 : 30000;
+  bool capped     = false;
+  std::vector<std::pair<uint64_t, int>> script;
+  uint64_t runs = enumerate_lock_rec(seed, n, ops, script, 1, 0, K, budget, capped);
+  R.count("enum_lock_configs");
+  R.count(capped ? "enum_lock_configs_capped" : "enum_lock_configs_exhausted");
+  R.maxi("enum_lock_max_runs_per_config", runs);
+  R.nontrivial(vf::mix(0xe12, index % 6 + 100 * static_cast<uint64_t>(K)));
+  if (R.want_sample(7))
+    R.sample("lock enumeration: threads=" + std::to_string(n) + " ops=" + std::to_string(ops) + " script seed " +
+             std::to_string(seed) + " preemption bound " + std::to_string(K) + ": " + std::to_string(runs) + " schedules" +
+             (capped ? " (capped)" : " (complete)"));
 }
 
 int main(int argc, char **argv)
@@ -528,6 +608,8 @@ int main(int argc, char **argv)
     uint64_t enum_every = static_cast<uint64_t>(R.opt.param("enum_every", 2000));
     if (enum_every && i % enum_every == 7)
       run_queue_enumeration(i / enum_every, R.opt.thorough);
+    else if (enum_every && i % enum_every == 1009)
+      run_lock_enumeration(i / enum_every, R.opt.thorough);
     else if (i % 5 == 4)
       run_lock_schedule(R.case_seed(i));
     else
